@@ -13,6 +13,18 @@
 //! of `()`. The model's loops use their own constant; the theorems need them
 //! equal, so changing one of them in the source breaks the proofs.
 //!
+//! `layoutdecide` → `Generated/LayoutDecide.lean`: the two small decision
+//! functions every other answer of the lowerer hangs on —
+//! `Pool::is_reference_type` (src/mir/ty.rs) and `Lowerer::lower_type`
+//! (src/lir/lower.rs) — translated statement by statement over the model's
+//! type kinds (`RotoV.LayoutKind.Kind`): the zero-sized guard (an `&&` / `!`
+//! / `matches!` / `layout_of(..)?.size() == 0` condition, with the
+//! short-circuit and the `?` kept), the `match self.get(ty)` arms, the
+//! `if let … = ty_kind { return … }` chain of `lower_type` (evaluated for
+//! every concrete `Ty` / `Primitive` a kind stands for; a kind whose members
+//! are treated differently is an extraction failure), and the class of each
+//! `IrType` (from the `match ir_ty` of `call_eq_of`, src/lir/lower/eq.rs).
+//!
 //! `usize` is rendered as `Nat` (no wrap-around: layouts of real types are far
 //! below 2^64; stated as an assumption of C02). A `&mut self` method returns
 //! the pair `(self', result)`. Std methods get their meaning once, in
@@ -27,6 +39,7 @@ use std::path::Path;
 pub const TARGETS: &[Target] = &[
     ("layout", "LayoutGen", layout as Gen),
     ("layoutloops", "LayoutLoops", layoutloops as Gen),
+    ("layoutdecide", "LayoutDecide", layoutdecide as Gen),
 ];
 
 type R = Result<String, String>;
@@ -355,5 +368,700 @@ fn layoutloops(repo: &Path) -> R {
     let body = expr(&arm.body).map_err(|e| format!("layout_of Ty::Unit arm: {e}"))?;
     s += &format!("/-- `Ty::Unit => …` in `layout_of` -/\ndef unit_layout : Layout := {body}\n\n");
     s += "end RotoV.Gen.LayoutLoops\n";
+    Ok(s)
+}
+
+// ───────────────────────── layoutdecide ─────────────────────────
+
+/// A concrete `mir::Ty` / `Primitive` value as far as patterns can inspect
+/// it; `?` is a payload no pattern may look into.
+#[derive(Clone, Debug, PartialEq)]
+struct V {
+    name: String,
+    args: Vec<V>,
+}
+
+fn v(name: &str, args: Vec<V>) -> V {
+    V { name: name.to_string(), args }
+}
+
+fn opaque() -> V {
+    v("?", vec![])
+}
+
+/// The model's kinds (`RotoV.LayoutKind.Kind`) and the source values each
+/// stands for. Checked against the enum definitions in the source.
+fn kinds(repo: &Path) -> Result<Vec<(&'static str, Vec<V>)>, String> {
+    let ty_file = find::parse(repo, "src/mir/ty.rs")?;
+    let types_file = find::parse(repo, "src/typechecker/types.rs")?;
+    let want = |file: &syn::File, name: &str, exp: &[&str]| -> Result<(), String> {
+        let mut have = find::enum_variants(file, name)?;
+        have.sort();
+        let mut exp: Vec<String> = exp.iter().map(|s| s.to_string()).collect();
+        exp.sort();
+        if have != exp {
+            return Err(format!(
+                "enum {name} has variants {have:?}; the C02 model's kinds cover {exp:?} (extend RotoV.LayoutKind.Kind and the model)"
+            ));
+        }
+        Ok(())
+    };
+    want(&ty_file, "Ty", &["Unit", "Never", "Record", "Enum", "Primitive", "List", "Runtime"])?;
+    want(
+        &types_file,
+        "Primitive",
+        &["Int", "Float", "String", "Char", "Bool", "Asn", "IpAddr", "Prefix"],
+    )?;
+    want(&types_file, "IntKind", &["Unsigned", "Signed"])?;
+    want(&types_file, "IntSize", &["I8", "I16", "I32", "I64"])?;
+    want(&types_file, "FloatSize", &["F32", "F64"])?;
+    let prim = |p: V| v("Primitive", vec![p]);
+    let mut ints = vec![];
+    for k in ["Unsigned", "Signed"] {
+        for s in ["I8", "I16", "I32", "I64"] {
+            ints.push(prim(v("Int", vec![v(k, vec![]), v(s, vec![])])));
+        }
+    }
+    for p in ["Bool", "Char", "Asn"] {
+        ints.push(prim(v(p, vec![])));
+    }
+    Ok(vec![
+        ("unit", vec![v("Unit", vec![])]),
+        ("never", vec![v("Never", vec![])]),
+        ("record", vec![v("Record", vec![opaque()])]),
+        ("enum", vec![v("Enum", vec![opaque()])]),
+        ("int", ints),
+        (
+            "float",
+            vec![
+                prim(v("Float", vec![v("F32", vec![])])),
+                prim(v("Float", vec![v("F64", vec![])])),
+            ],
+        ),
+        ("string", vec![prim(v("String", vec![]))]),
+        ("copyRef", vec![prim(v("IpAddr", vec![])), prim(v("Prefix", vec![]))]),
+        ("list", vec![v("List", vec![opaque()])]),
+        ("runtime", vec![v("Runtime", vec![opaque()])]),
+    ])
+}
+
+fn last_seg(p: &syn::Path) -> String {
+    p.segments.last().map(|s| s.ident.to_string()).unwrap_or_default()
+}
+
+/// Does `p` match `val`? Bindings are appended to `binds`.
+fn pat_matches(p: &syn::Pat, val: &V, binds: &mut Vec<(String, V)>) -> Result<bool, String> {
+    use syn::Pat as P;
+    Ok(match p {
+        P::Wild(_) => true,
+        P::Paren(q) => pat_matches(&q.pat, val, binds)?,
+        P::Reference(q) => pat_matches(&q.pat, val, binds)?,
+        P::Or(o) => {
+            for c in &o.cases {
+                if pat_matches(c, val, binds)? {
+                    return Ok(true);
+                }
+            }
+            false
+        }
+        P::Ident(i) => {
+            if i.subpat.is_some() {
+                return Err("`@` pattern".into());
+            }
+            let n = i.ident.to_string();
+            if n.chars().next().is_some_and(|c| c.is_uppercase()) {
+                if val.name == "?" {
+                    return Err(format!("pattern {n} inspects an opaque payload"));
+                }
+                val.name == n && val.args.is_empty()
+            } else {
+                binds.push((n, val.clone()));
+                true
+            }
+        }
+        P::Path(q) => {
+            if val.name == "?" {
+                return Err(format!("pattern {} inspects an opaque payload", norm(q)));
+            }
+            val.name == last_seg(&q.path) && val.args.is_empty()
+        }
+        P::TupleStruct(ts) => {
+            if val.name == "?" {
+                return Err(format!("pattern {} inspects an opaque payload", norm(ts)));
+            }
+            if val.name != last_seg(&ts.path) {
+                return Ok(false);
+            }
+            let elems: Vec<&syn::Pat> = ts.elems.iter().collect();
+            let rest = elems.iter().position(|e| matches!(e, P::Rest(_)));
+            match rest {
+                None => {
+                    if elems.len() != val.args.len() {
+                        return Err(format!(
+                            "pattern {} has {} fields, the model's value {} has {}",
+                            norm(ts),
+                            elems.len(),
+                            val.name,
+                            val.args.len()
+                        ));
+                    }
+                    for (e, a) in elems.iter().zip(&val.args) {
+                        if !pat_matches(e, a, binds)? {
+                            return Ok(false);
+                        }
+                    }
+                    true
+                }
+                Some(r) => {
+                    let before = &elems[..r];
+                    let after = &elems[r + 1..];
+                    if before.len() + after.len() > val.args.len() {
+                        return Err(format!("pattern {} is longer than the value", norm(ts)));
+                    }
+                    for (e, a) in before.iter().zip(&val.args) {
+                        if !pat_matches(e, a, binds)? {
+                            return Ok(false);
+                        }
+                    }
+                    let off = val.args.len() - after.len();
+                    for (e, a) in after.iter().zip(&val.args[off..]) {
+                        if !pat_matches(e, a, binds)? {
+                            return Ok(false);
+                        }
+                    }
+                    true
+                }
+            }
+        }
+        other => return Err(format!("unsupported pattern {}", norm(other))),
+    })
+}
+
+/// `f` on every member of every kind; all members of a kind must agree.
+fn kind_table<T: PartialEq + Clone + std::fmt::Debug>(
+    kinds: &[(&'static str, Vec<V>)],
+    what: &str,
+    f: &dyn Fn(&V) -> Result<T, String>,
+) -> Result<Vec<(&'static str, T)>, String> {
+    let mut out = vec![];
+    for (k, members) in kinds {
+        let mut res: Option<T> = None;
+        for m in members {
+            let r = f(m).map_err(|e| format!("{what}, {m:?}: {e}"))?;
+            match &res {
+                None => res = Some(r),
+                Some(prev) if *prev == r => {}
+                Some(prev) => {
+                    return Err(format!(
+                        "{what}: the members of the model's kind `{k}` are treated differently ({prev:?} vs {r:?} for {m:?}); refine RotoV.LayoutKind.Kind"
+                    ))
+                }
+            }
+        }
+        out.push((*k, res.ok_or("empty kind")?));
+    }
+    Ok(out)
+}
+
+fn lean_table(name: &str, doc: &str, ty: &str, rows: &[(&'static str, String)]) -> String {
+    let mut s = format!("/-- {doc} -/\ndef {name} : Kind → {ty}\n");
+    for (k, r) in rows {
+        s += &format!("  | .{k} => {r}\n");
+    }
+    s + "\n"
+}
+
+struct MatchesArgs {
+    e: syn::Expr,
+    p: syn::Pat,
+}
+impl syn::parse::Parse for MatchesArgs {
+    fn parse(input: syn::parse::ParseStream) -> syn::Result<Self> {
+        let e: syn::Expr = input.parse()?;
+        input.parse::<syn::Token![,]>()?;
+        let p = syn::Pat::parse_multi_with_leading_vert(input)?;
+        if input.peek(syn::Token![if]) {
+            return Err(input.error("guard in matches!"));
+        }
+        if input.peek(syn::Token![,]) {
+            input.parse::<syn::Token![,]>()?;
+        }
+        Ok(MatchesArgs { e, p })
+    }
+}
+
+/// One decision function being translated.
+struct Dec<'a> {
+    fname: &'a str,
+    kinds: &'a [(&'static str, Vec<V>)],
+    /// expressions that denote `self.get(ty)`
+    kind_exprs: Vec<String>,
+    /// emitted auxiliary tables
+    defs: String,
+    n_matches: usize,
+}
+
+impl Dec<'_> {
+    fn is_kind_expr(&self, e: &syn::Expr) -> bool {
+        let s = norm(e);
+        self.kind_exprs.iter().any(|k| *k == s)
+    }
+
+    fn is_layout_expr(e: &syn::Expr) -> bool {
+        let s = norm(e);
+        s == "self.layout_of(ty,rt)" || s == "self.layout_of(ty)"
+    }
+
+    /// `l.size() == 0` and the like on a layout variable `var`: a Lean `Bool`
+    fn layout_pred(var: &str, e: &syn::Expr) -> R {
+        use syn::Expr as E;
+        let side = |e: &syn::Expr| -> R {
+            Ok(match e {
+                E::Lit(l) => match &l.lit {
+                    syn::Lit::Int(i) => i.base10_digits().to_string(),
+                    o => return Err(format!("unsupported literal {}", norm(o))),
+                },
+                E::MethodCall(m) if m.args.is_empty() && norm(&m.receiver) == var => {
+                    match m.method.to_string().as_str() {
+                        "size" => format!("(Layout.get_size {var})"),
+                        "align" => format!("(Layout.get_align {var})"),
+                        "is_zero_sized" => format!("(Layout.is_zero_sized {var})"),
+                        o => return Err(format!("unsupported layout method .{o}()")),
+                    }
+                }
+                o => return Err(format!("unsupported operand `{}`", norm(o))),
+            })
+        };
+        match e {
+            E::Paren(p) => Self::layout_pred(var, &p.expr),
+            E::Binary(b) => {
+                let (l, r) = (side(&b.left)?, side(&b.right)?);
+                Ok(match &b.op {
+                    syn::BinOp::Eq(_) => format!("(decide ({l} = {r}))"),
+                    syn::BinOp::Ne(_) => format!("(decide ({l} ≠ {r}))"),
+                    syn::BinOp::Gt(_) => format!("(decide ({l} > {r}))"),
+                    syn::BinOp::Lt(_) => format!("(decide ({l} < {r}))"),
+                    o => return Err(format!("unsupported operator {}", norm(o))),
+                })
+            }
+            E::MethodCall(_) => side(e),
+            o => Err(format!("unsupported layout predicate `{}`", norm(o))),
+        }
+    }
+
+    /// a Rust `bool` condition that may contain `?`: a Lean `Option Bool`
+    /// (`none` = the `?` returned `None` from the function); `&&` / `||`
+    /// keep their short-circuit, so a `?` on the right only fires when the
+    /// left operand lets it be evaluated
+    fn cond(&mut self, e: &syn::Expr) -> R {
+        use syn::Expr as E;
+        Ok(match e {
+            E::Paren(p) => self.cond(&p.expr)?,
+            E::Unary(u) if matches!(u.op, syn::UnOp::Not(_)) => {
+                format!("(Option.map (fun b => !b) {})", self.cond(&u.expr)?)
+            }
+            E::Binary(b) if matches!(b.op, syn::BinOp::And(_)) => {
+                let (l, r) = (self.cond(&b.left)?, self.cond(&b.right)?);
+                format!("(match {l} with\n      | none => none\n      | some false => some false\n      | some true => {r})")
+            }
+            E::Binary(b) if matches!(b.op, syn::BinOp::Or(_)) => {
+                let (l, r) = (self.cond(&b.left)?, self.cond(&b.right)?);
+                format!("(match {l} with\n      | none => none\n      | some true => some true\n      | some false => {r})")
+            }
+            E::Macro(m) if norm(&m.mac.path) == "matches" => {
+                let a: MatchesArgs = m.mac.parse_body().map_err(|e| format!("matches! body: {e}"))?;
+                if !self.is_kind_expr(&a.e) {
+                    return Err(format!("matches! on `{}` (expected the type's kind)", norm(&a.e)));
+                }
+                let rows = kind_table(self.kinds, &format!("matches!(.., {})", norm(&a.p)), &|val| {
+                    pat_matches(&a.p, val, &mut vec![])
+                })?;
+                let name = format!("{}_matches{}", self.fname, self.n_matches);
+                self.n_matches += 1;
+                let rows: Vec<_> = rows.into_iter().map(|(k, b)| (k, b.to_string())).collect();
+                self.defs += &lean_table(
+                    &name,
+                    &format!("`matches!({}, {})` in `{}`", norm(&a.e), norm(&a.p), self.fname),
+                    "Bool",
+                    &rows,
+                );
+                format!("(some ({name} k))")
+            }
+            // self.layout_of(ty, rt)?.size() == 0
+            E::Binary(b) => {
+                let mut lhs = &*b.left;
+                while let E::Paren(p) = lhs {
+                    lhs = &p.expr;
+                }
+                let E::MethodCall(m) = lhs else {
+                    return Err(format!("unsupported condition `{}`", norm(e)));
+                };
+                let E::Try(t) = &*m.receiver else {
+                    return Err(format!("unsupported condition `{}`", norm(e)));
+                };
+                if !Self::is_layout_expr(&t.expr) {
+                    return Err(format!("`?` on `{}` (expected layout_of)", norm(&t.expr)));
+                }
+                // the same comparison with the layout bound to `l`
+                let mut m2 = m.clone();
+                m2.receiver = Box::new(syn::parse_quote!(l));
+                let mut b2 = b.clone();
+                b2.left = Box::new(E::MethodCall(m2));
+                let p = Self::layout_pred("l", &E::Binary(b2))?;
+                format!("(match lay with\n      | none => none\n      | some l => some {p})")
+            }
+            // self.layout_of(ty).is_some_and(|l| l.size() == 0)
+            E::MethodCall(m) if m.method == "is_some_and" && m.args.len() == 1 => {
+                if !Self::is_layout_expr(&m.receiver) {
+                    return Err(format!("is_some_and on `{}` (expected layout_of)", norm(&m.receiver)));
+                }
+                let E::Closure(c) = &m.args[0] else {
+                    return Err("is_some_and without a closure".into());
+                };
+                if c.inputs.len() != 1 {
+                    return Err("closure arity".into());
+                }
+                let var = norm(&c.inputs[0]);
+                let p = Self::layout_pred(&var, &c.body)?;
+                format!("(some (match lay with\n      | none => false\n      | some {var} => {p}))")
+            }
+            o => return Err(format!("unsupported condition `{}`", norm(o))),
+        })
+    }
+}
+
+/// `if C { return X; }` with no else: (C, X)
+fn guard_return(st: &syn::Stmt) -> Result<(&syn::Expr, &syn::Expr), String> {
+    let syn::Stmt::Expr(syn::Expr::If(i), _) = st else {
+        return Err(format!("expected `if … {{ return …; }}`, found `{}`", norm(st)));
+    };
+    if i.else_branch.is_some() || i.then_branch.stmts.len() != 1 {
+        return Err("guard with else / several statements".into());
+    }
+    let syn::Stmt::Expr(syn::Expr::Return(r), _) = &i.then_branch.stmts[0] else {
+        return Err("guard body is not a return".into());
+    };
+    let x = r.expr.as_ref().ok_or("return without value")?;
+    Ok((&i.cond, x))
+}
+
+/// class (`int` / `float` / `pointer`) of every `IrType`, from the
+/// `match ir_ty` of `call_eq_of`: the arm that emits `IntCmp`, the one that
+/// emits `FloatCmp`, and the `Pointer` arm that goes on to the eq functions
+fn ir_classes(repo: &Path) -> Result<Vec<(String, &'static str)>, String> {
+    let rel = "src/lir/lower/eq.rs";
+    let file = find::parse(repo, rel)?;
+    let f = find::func(&file, "call_eq_of", Some("Lowerer"))?;
+    let ms = find::matches_on(&f.block, "ir_ty");
+    if ms.len() != 1 {
+        return Err(format!("call_eq_of: expected one `match ir_ty`, found {}", ms.len()));
+    }
+    fn names(p: &syn::Pat, out: &mut Vec<String>) -> Result<(), String> {
+        match p {
+            syn::Pat::Or(o) => {
+                for c in &o.cases {
+                    names(c, out)?;
+                }
+            }
+            syn::Pat::Path(q) => out.push(last_seg(&q.path)),
+            syn::Pat::Ident(i) => out.push(i.ident.to_string()),
+            o => return Err(format!("call_eq_of: unsupported IrType pattern {}", norm(o))),
+        }
+        Ok(())
+    }
+    let mut out = vec![];
+    for a in &ms[0].arms {
+        if a.guard.is_some() {
+            return Err("call_eq_of: guarded IrType arm".into());
+        }
+        let mut ns = vec![];
+        names(&a.pat, &mut ns)?;
+        let body = norm(&a.body);
+        let (ic, fc) = (body.contains("Instruction::IntCmp"), body.contains("Instruction::FloatCmp"));
+        let class = match (ic, fc) {
+            (true, false) => "int",
+            (false, true) => "float",
+            (false, false) if body == "{}" => "pointer",
+            _ => return Err(format!("call_eq_of: cannot classify the arm for {ns:?}")),
+        };
+        for n in ns {
+            out.push((n, class));
+        }
+    }
+    Ok(out)
+}
+
+enum Flow {
+    Return(String),
+    Break(String),
+    Fall,
+}
+
+/// `IrType::X` → `X`
+fn ir_name(e: &syn::Expr) -> Result<String, String> {
+    match e {
+        syn::Expr::Path(p) if p.path.segments.len() == 2 && p.path.segments[0].ident == "IrType" => {
+            Ok(last_seg(&p.path))
+        }
+        o => Err(format!("expected an IrType, found `{}`", norm(o))),
+    }
+}
+
+/// Run the statements of an `if let` body of `lower_type` for one concrete
+/// value (bindings in `binds`).
+fn eval_block(b: &syn::Block, binds: &[(String, V)]) -> Result<Flow, String> {
+    use syn::Expr as E;
+    for st in &b.stmts {
+        match st {
+            syn::Stmt::Item(syn::Item::Use(_)) => {}
+            syn::Stmt::Expr(E::Block(bl), _) => match eval_block(&bl.block, binds)? {
+                Flow::Return(x) => return Ok(Flow::Return(x)),
+                Flow::Break(l) => {
+                    let mine = bl.label.as_ref().map(|l| l.name.ident.to_string());
+                    if mine.as_deref() != Some(l.as_str()) {
+                        return Ok(Flow::Break(l));
+                    }
+                }
+                Flow::Fall => {}
+            },
+            syn::Stmt::Expr(E::Return(r), _) => {
+                let x = r.expr.as_ref().ok_or("return without value")?;
+                let E::Call(c) = &**x else {
+                    return Err(format!("unsupported return value `{}`", norm(x)));
+                };
+                if norm(&c.func) != "Some" || c.args.len() != 1 {
+                    return Err(format!("unsupported return value `{}`", norm(x)));
+                }
+                return match &c.args[0] {
+                    E::Match(m) => {
+                        let sc = norm(&m.expr);
+                        let val = binds
+                            .iter()
+                            .rev()
+                            .find(|(n, _)| *n == sc)
+                            .map(|(_, v)| v.clone())
+                            .ok_or(format!("match on `{sc}`, which no pattern bound"))?;
+                        for a in &m.arms {
+                            if a.guard.is_some() {
+                                return Err("guarded arm".into());
+                            }
+                            if pat_matches(&a.pat, &val, &mut vec![])? {
+                                return match &*a.body {
+                                    E::Break(br) if br.expr.is_none() => Ok(Flow::Break(
+                                        br.label.as_ref().ok_or("break without label")?.ident.to_string(),
+                                    )),
+                                    other => Ok(Flow::Return(ir_name(other)?)),
+                                };
+                            }
+                        }
+                        Err(format!("no arm matches {val:?}"))
+                    }
+                    other => Ok(Flow::Return(ir_name(other)?)),
+                };
+            }
+            other => return Err(format!("unsupported statement `{}`", norm(other))),
+        }
+    }
+    Ok(Flow::Fall)
+}
+
+fn layoutdecide(repo: &Path) -> R {
+    let kinds = kinds(repo)?;
+    let classes = ir_classes(repo)?;
+    let class_of = |ir: &str| -> Result<&'static str, String> {
+        classes
+            .iter()
+            .find(|(n, _)| n == ir)
+            .map(|(_, c)| *c)
+            .ok_or(format!("IrType::{ir} has no arm in call_eq_of's `match ir_ty`"))
+    };
+    let mut s = String::from(
+        "/- GENERATED by /verif/extract from src/mir/ty.rs (Pool::is_reference_type), src/lir/lower.rs (Lowerer::lower_type), src/lir/lower/eq.rs (call_eq_of) — do not edit. -/\nimport RotoV.Model.LayoutKind\nimport RotoV.Generated.LayoutGen\nset_option linter.unusedVariables false\nnamespace RotoV.Gen.LayoutDecide\nopen RotoV RotoV.LayoutKind RotoV.Gen.LayoutGen\n\n",
+    );
+
+    // ---- Pool::is_reference_type ----
+    {
+        let rel = "src/mir/ty.rs";
+        let file = find::parse(repo, rel)?;
+        let f = find::func(&file, "is_reference_type", Some("Pool"))?;
+        let e = |m: String| format!("{rel}::is_reference_type: {m}");
+        let st = &f.block.stmts;
+        if st.len() != 3 {
+            return Err(e(format!("expected guard; let res = match …; Some(res) — found {} statements", st.len())));
+        }
+        let mut d = Dec {
+            fname: "is_reference_type",
+            kinds: &kinds,
+            kind_exprs: vec!["self.get(ty)".into()],
+            defs: String::new(),
+            n_matches: 0,
+        };
+        let (c, x) = guard_return(&st[0]).map_err(e)?;
+        let c = d.cond(c).map_err(e)?;
+        let x = match norm(x).as_str() {
+            "Some(false)" => "some false",
+            "Some(true)" => "some true",
+            "None" => "none",
+            o => return Err(e(format!("unsupported early return {o}"))),
+        };
+        // let res = match self.get(ty) { … };
+        let syn::Stmt::Local(l) = &st[1] else {
+            return Err(e("second statement is not a let".into()));
+        };
+        let res_name = norm(&l.pat);
+        let init = l.init.as_ref().ok_or_else(|| e("let without initialiser".into()))?;
+        let syn::Expr::Match(m) = &*init.expr else {
+            return Err(e("let initialiser is not a match".into()));
+        };
+        if !d.is_kind_expr(&m.expr) {
+            return Err(e(format!("match on `{}`", norm(&m.expr))));
+        }
+        let syn::Stmt::Expr(tail, None) = &st[2] else {
+            return Err(e("no tail expression".into()));
+        };
+        if norm(tail) != format!("Some({res_name})") {
+            return Err(e(format!("tail is `{}`", norm(tail))));
+        }
+        let rows = kind_table(&kinds, "is_reference_type arms", &|val| {
+            for a in &m.arms {
+                if a.guard.is_some() {
+                    return Err("guarded arm".into());
+                }
+                if pat_matches(&a.pat, val, &mut vec![])? {
+                    return Ok(match norm(&a.body).as_str() {
+                        "true" => "some true".to_string(),
+                        "false" => "some false".to_string(),
+                        "returnNone" => "none".to_string(),
+                        o => return Err(format!("unsupported arm body `{o}`")),
+                    });
+                }
+            }
+            Err("no arm matches".into())
+        })
+        .map_err(e)?;
+        s += &d.defs;
+        s += &lean_table(
+            "is_reference_type_arms",
+            "`match self.get(ty) { … }` of `Pool::is_reference_type`; `none` = `return None`",
+            "Option Bool",
+            &rows,
+        );
+        s += &format!(
+            "/-- `Pool::is_reference_type` (src/mir/ty.rs) on a type of kind `k` whose\n    `layout_of` is `lay`; `none` = uninhabited -/\ndef is_reference_type (k : Kind) (lay : Option Layout) : Option Bool :=\n  match {c} with\n  | none => none\n  | some true => {x}\n  | some false => is_reference_type_arms k\n\n"
+        );
+    }
+
+    // ---- the class of each IrType ----
+    s += "/-- the class `call_eq_of` (src/lir/lower/eq.rs) puts each `IrType` in:\n";
+    for (n, c) in &classes {
+        s += &format!("    `{n}` ↦ {c};");
+    }
+    s += " -/\ndef ir_classes : List (String × IrClass) :=\n  [";
+    s += &classes
+        .iter()
+        .map(|(n, c)| format!("(\"{n}\", .{c})"))
+        .collect::<Vec<_>>()
+        .join(", ");
+    s += "]\n\n";
+
+    // ---- Lowerer::lower_type ----
+    {
+        let rel = "src/lir/lower.rs";
+        let file = find::parse(repo, rel)?;
+        let f = find::func(&file, "lower_type", Some("Lowerer"))?;
+        let e = |m: String| format!("{rel}::lower_type: {m}");
+        let st = &f.block.stmts;
+        if st.len() < 3 {
+            return Err(e("too few statements".into()));
+        }
+        let mut d = Dec {
+            fname: "lower_type",
+            kinds: &kinds,
+            kind_exprs: vec!["self.ctx.type_info.ty_pool.get(ty)".into(), "self.get(ty)".into()],
+            defs: String::new(),
+            n_matches: 0,
+        };
+        let (c, x) = guard_return(&st[0]).map_err(e)?;
+        let c = d.cond(c).map_err(e)?;
+        if norm(x) != "None" {
+            return Err(e(format!("unsupported early return {}", norm(x))));
+        }
+        // let ty_kind = self.ctx.type_info.ty_pool.get(ty);
+        let syn::Stmt::Local(l) = &st[1] else {
+            return Err(e("second statement is not a let".into()));
+        };
+        let alias = norm(&l.pat);
+        let init = l.init.as_ref().ok_or_else(|| e("let without initialiser".into()))?;
+        if !d.is_kind_expr(&init.expr) {
+            return Err(e(format!("`{alias}` is `{}`", norm(&init.expr))));
+        }
+        // if let PAT = ty_kind { … return Some(IrType) … }   (in order)
+        let chain = &st[2..st.len() - 1];
+        let mut iflets = vec![];
+        for c in chain {
+            let syn::Stmt::Expr(syn::Expr::If(i), _) = c else {
+                return Err(e(format!("unsupported statement `{}`", norm(c))));
+            };
+            let syn::Expr::Let(le) = &*i.cond else {
+                return Err(e(format!("unsupported condition `{}`", norm(&i.cond))));
+            };
+            if norm(&le.expr) != alias || i.else_branch.is_some() {
+                return Err(e(format!("unsupported `if let` on `{}`", norm(&le.expr))));
+            }
+            iflets.push((&*le.pat, &i.then_branch));
+        }
+        let rows = kind_table(&kinds, "lower_type `if let` chain", &|val| {
+            for (p, b) in &iflets {
+                let mut binds = vec![];
+                if pat_matches(p, val, &mut binds)? {
+                    match eval_block(b, &binds)? {
+                        Flow::Return(ir) => return Ok(format!("some .{}", class_of(&ir)?)),
+                        Flow::Break(l) => return Err(format!("break '{l} leaves the if-let")),
+                        Flow::Fall => {}
+                    }
+                }
+            }
+            Ok("none".to_string())
+        })
+        .map_err(e)?;
+        // Some(match ty { x if self.is_reference_type(x)? => IrType::Pointer, _ => ice!(…) })
+        let syn::Stmt::Expr(tail, None) = &st[st.len() - 1] else {
+            return Err(e("no tail expression".into()));
+        };
+        let tail_ir = (|| -> Result<String, String> {
+            let syn::Expr::Call(c) = tail else { return Err("tail is not Some(…)".into()) };
+            if norm(&c.func) != "Some" || c.args.len() != 1 {
+                return Err("tail is not Some(…)".into());
+            }
+            let syn::Expr::Match(m) = &c.args[0] else { return Err("tail is not Some(match …)".into()) };
+            if norm(&m.expr) != "ty" || m.arms.len() != 2 {
+                return Err("tail match shape".into());
+            }
+            let a0 = &m.arms[0];
+            let var = norm(&a0.pat);
+            let g = a0.guard.as_ref().map(|(_, g)| norm(g)).unwrap_or_default();
+            if g != format!("self.is_reference_type({var})?") {
+                return Err(format!("tail guard is `{g}`"));
+            }
+            let a1 = &m.arms[1];
+            if !matches!(a1.pat, syn::Pat::Wild(_)) || a1.guard.is_some() || !norm(&a1.body).starts_with("ice!") {
+                return Err("tail default arm is not `_ => ice!(…)`".into());
+            }
+            ir_name(&a0.body)
+        })()
+        .map_err(e)?;
+        let tail_class = class_of(&tail_ir).map_err(e)?;
+        s += &d.defs;
+        s += &lean_table(
+            "lower_type_early",
+            "the `if let … = ty_kind { return Some(…) }` chain of `Lowerer::lower_type`: the class of the `IrType` returned, `none` = falls through to the final `match`",
+            "Option IrClass",
+            &rows,
+        );
+        s += &format!(
+            "/-- `Lowerer::lower_type` (src/lir/lower.rs) on a type of kind `k` whose\n    `layout_of` is `lay` and whose `is_reference_type` is `isRef`; `ok none` =\n    no IR value, `panic` = the final `ice!` -/\ndef lower_type (k : Kind) (lay : Option Layout) (isRef : Option Bool) : Res (Option IrClass) :=\n  match {c} with\n  | none => .ok none\n  | some true => .ok none\n  | some false =>\n    match lower_type_early k with\n    | some c => .ok (some c)\n    | none =>\n      match isRef with\n      | none => .ok none\n      | some true => .ok (some .{tail_class})\n      | some false => .panic\n\n"
+        );
+    }
+    s += "end RotoV.Gen.LayoutDecide\n";
     Ok(s)
 }
